@@ -1,7 +1,9 @@
 """C15: references parse, print, compare and hash consistently."""
 from __future__ import annotations
 
+import copy
 import os
+import pickle
 import random
 import tempfile
 
@@ -113,8 +115,25 @@ class C15(Plugin):
         r1, r2, r3 = Reference(prefix=p, identifier=i), Reference(prefix=p2, identifier=i2), Reference(prefix=p3, identifier=i3)
         pyd = [Reference, NamableReference, NamedReference]
 
-        def mk_as(c, pp, ii, nn=name):
-            return c(prefix=pp, identifier=ii) if c is Reference else c(prefix=pp, identifier=ii, name=nn)
+        def mk_as(c, pp, ii, nn=name, how=0):
+            """an instance of class c with the pair (pp, ii).  how = 0: the constructor; 1: model_copy(update=...) of an instance with
+            ANOTHER pair that has been hashed, compared, sorted and printed before (whatever an instance remembers of its old pair
+            must not come along); 2: copy.deepcopy of a used instance; 3: pickle round trip of a used instance; 4: model_copy()"""
+            def direct(a, b):
+                return c(prefix=a, identifier=b) if c is Reference else c(prefix=a, identifier=b, name=nn)
+
+            def use(x):
+                hash(x), x < x, x == x, x.pair, x.curie, sorted([x, x]), repr(x), str(x), x.model_dump()
+                return x
+            if how == 1:
+                return use(direct(pp + "q", ii + "q")).model_copy(update={"prefix": pp, "identifier": ii})
+            if how == 2:
+                return copy.deepcopy(use(direct(pp, ii)))
+            if how == 3:
+                return pickle.loads(pickle.dumps(use(direct(pp, ii))))
+            if how == 4:
+                return use(direct(pp, ii)).model_copy()
+            return direct(pp, ii)
 
         # equality and hashing depend ONLY on the pair, across the three pydantic classes: equal pairs are equal and hash alike,
         # different pairs are different (also when only the identifier, or only the letter case of the prefix, differs)
@@ -124,13 +143,15 @@ class C15(Plugin):
             for b in trio:
                 for ca in pyd:
                     for cb in pyd:
-                        x, y = mk_as(ca, *a), mk_as(cb, *b, nn=name + "y")
-                        laws = laws and ((x == y) == (a == b)) and ((x != y) == (a != b)) and (a != b or hash(x) == hash(y))
+                        for how in range(5):
+                            x, y = mk_as(ca, *a, how=how), mk_as(cb, *b, nn=name + "y")
+                            laws = laws and ((x == y) == (a == b)) and ((x != y) == (a != b)) and (a != b or hash(x) == hash(y))
+                            laws = laws and x.pair == a and x.curie == a[0] + ":" + a[1]
         o7 = int(bool(laws))
 
         def lt(a, b):
             """'<' must give the same answer whatever pydantic classes the two references have; -1 if the classes disagree"""
-            answers = {bool(mk_as(ca, *a) < mk_as(cb, *b)) for ca in pyd for cb in pyd}
+            answers = {bool(mk_as(ca, *a, how=how) < mk_as(cb, *b, how=(how * 2) % 5)) for ca in pyd for cb in pyd for how in range(5)}
             return int(answers.pop()) if len(answers) == 1 else -1
 
         o8 = [lt((p, i), (p2, i2)), lt((p2, i2), (p, i)), lt((p2, i2), (p3, i3)), lt((p, i), (p3, i3)), lt((p, i), (p, i)),
